@@ -102,7 +102,7 @@ theorem closeBlocks_nop {s s' : St} (tn : Nat) (htl : tn ≤ s.pc.opened.length)
 theorem closeBlocks_mid {src : Bytes} {s s' : St} (pre mid new : List Block) (hop : s.pc.opened = pre ++ mid ++ new)
     (h : CInv src s s.pc.opened) (hsrc : s.r.source = src)
     (hcont : ∀ b ∈ mid.reverse.tail, b.bp.isContainer = true)
-    (hG : ∀ g ∈ pre ++ new, PS g → Guard s mid.reverse g)
+    (hG : ∀ g ∈ pre ++ new, PSb g → Guard s mid.reverse g)
     (hsx : (∃ b ∈ mid, b.bp = .setext) → ∀ t, s.pc.tmpPara = some t → ∀ g ∈ s.pc.opened, g.bp = .paragraph → g.node ≠ t)
     (e : closeBlocks ((pre.length : Int) + (mid.length : Int) - 1) (pre.length : Int) s = .ok ((), s')) :
     CInv src s' s'.pc.opened ∧ s'.pc.opened = pre ++ new ∧ s'.r = s.r := by
@@ -212,7 +212,7 @@ theorem lineTail_cl {root : Nat} (Lb : Int) (pre : List Block) (be : Block) (res
     -- the guards of the new leaf
     have hincr : (root :: (pre ++ be :: rest).map (·.node)).Pairwise (· < ·) := by
       have := hst.ls.incr; rw [hop, hob] at this; exact this
-    have hguard : ∀ (mid : List Block), (∀ L ∈ mid, L ∈ be :: rest) → ∀ g ∈ pre ++ new1, PS g →
+    have hguard : ∀ (mid : List Block), (∀ L ∈ mid, L ∈ be :: rest) → ∀ g ∈ pre ++ new1, PSb g →
         g ∈ s1.pc.opened → Guard s1 mid.reverse g := by
       intro mid hmid g hg hps hgo
       rcases List.mem_append.1 hg with hg | hg
